@@ -15,10 +15,14 @@ for sd in seeds:
     if r.returncode != 0:
         print(sd, 'patch does not apply:', r.stderr.strip()[:200])
         continue
+    evf = os.path.join(V, 'evidence', pid + '.json')
+    saved = open(evf).read() if os.path.exists(evf) else None
     try:
         p = subprocess.run([V + '/check', pid, '--tier', 'quick'], capture_output=True, text=True, cwd=V)
     finally:
         subprocess.run(['git', '-C', '/repo', 'checkout', '--', '.'])
+        if saved is not None:
+            open(evf, 'w').write(saved)  # evidence must describe the unchanged tree, not the seeded run
     lines = [l for l in p.stdout.splitlines() if re.match(r'(VIOLATION|UNDECIDED|KNOWN-FINDING|%s )' % pid, l)]
     viol = [l for l in lines if l.startswith('VIOLATION')]
     und = [l for l in lines if l.startswith('UNDECIDED')]
